@@ -219,6 +219,19 @@ def r5(ctx):
     gate = all(any(a[0] == "is" and render(a[1]) == "self.state.trading" and a[2] == frozenset(["Enabled"]) for a in conj) for conj in g)
     ctx.check("Engine::process:gate", gate, "generation is control-dependent on TradingState::Enabled on every path",
               sites=[gen[0][1]["sp"]], got=render_guard(g)[:400], key="enabled")
+    # ... and on nothing else: whenever trading is enabled after a (non-shutdown, non-fatal) event, orders are generated
+    extra = []
+    for conj in g:
+        for a in conj:
+            r = mir.render_atom(a)
+            if a[0] == "is" and render(a[1]) in ("self.state.trading", "event"):
+                continue
+            if a[0] == "is" and "unrecoverable_errors" in render(a[1]):
+                continue
+            extra.append(r[:140])
+    ctx.check("Engine::process:gate", not extra,
+              "generation depends on nothing but the trading state (and the Shutdown / fatal-command early returns)",
+              got=sorted(set(extra)), key="only-trading-state")
     # the trading state is read after the event-specific update
     tblocks = [x for x in b.reachable if b.blocks[x]["term"]["t"] == "switch" and
                b.operand_term(b.blocks[x]["term"]["d"])[0] == "discr" and render(b.operand_term(b.blocks[x]["term"]["d"])[1]) == "self.state.trading"]
